@@ -115,6 +115,12 @@ Fixpoint qminl (d : Q) (l : list Q) : Q :=
 Fixpoint qmaxl (d : Q) (l : list Q) : Q :=
   match l with [] => d | x :: r => qmaxl (qmax2 d x) r end.
 
+(* the same sums with a reduced fraction after every addition (the plain folds
+   above let denominators grow with every term); proved equal (==) to them *)
+Definition qsum_r (l : list Q) : Q := fold_left (fun a x => Qred (a + x)) l 0.
+Definition qss_to_r (m : Q) (l : list Q) : Q :=
+  fold_left (fun a x => Qred (a + (x - m) * (x - m))) l 0.
+
 (* the statistics of a recorded list, in the shape of the accessors; the
    empty list reports the zero values of a fresh Value, one value has an
    undefined (NaN) sample deviation *)
@@ -122,6 +128,11 @@ Definition exact (l : list Q) : snap :=
   match l with
   | [] => mkSnap 0 0 0 0 0 (DSq 0)
   | x :: r =>
-      mkSnap (length l) (qminl x r) (qmaxl x r) (Qred (qmean l)) (Qred (qsum l))
-             (match r with [] => DNaN | _ => DSq (Qred (qvar l)) end)
+      let sm := qsum_r l in
+      let mean := Qred (sm / qofnat (length l)) in
+      mkSnap (length l) (qminl x r) (qmaxl x r) mean sm
+             (match r with
+              | [] => DNaN
+              | _ => DSq (Qred (qss_to_r mean l / qofnat (length l - 1)))
+              end)
   end.
